@@ -161,6 +161,36 @@ def _topologies(repo):
         o = t.output(a, static=so)
         t.link(o, [], b, static_in=si)
         out.append((f"static:out={so},in={si}", t, [a, b]))
+    # static combinations through adapters (adapters are never static themselves: the root output decides)
+    for chain in ([PASS], [PASS, PASS], [DFIX], [PASS, BUF]):
+        for so, si in itertools.product((False, True), repeat=2):
+            t, a, b = base()
+            o = t.output(a, static=so)
+            t.link(o, list(chain), b, static_in=si)
+            out.append((f"static-through:{'>'.join(chain)}:out={so},in={si}", t, [a, b]))
+    # components with several outputs: an unconnected output next to (before / after) a defective or a sound one
+    for pos in ("first", "middle", "last"):
+        for defect in ("none", "branching", "missing-downstream"):
+            t = Topo(repo)
+            a, b, c = t.comp("A"), t.comp("B"), t.comp("C")
+            x = t.comp("X")
+            names = ["o1", "o2", "o3"]
+            idle = {"first": 0, "middle": 1, "last": 2}[pos]
+            outs = [t.output(a, n) for n in names]
+            k = 0
+            for i, o in enumerate(outs):
+                if i == idle:
+                    continue
+                k += 1
+                if k == 2 and defect == "branching":
+                    el = t.link(o, [BUF], None)
+                    t.link(o, el, b, f"in{i}")
+                    t.link(o, el, c, f"in{i}")
+                elif k == 2 and defect == "missing-downstream":
+                    t.link(o, [], x, f"in{i}")
+                else:
+                    t.link(o, [PASS], b if k == 1 else c, f"in{i}")
+            out.append((f"multi-output:idle-{pos}:{defect}", t, [a, b, c]))
     # unconnected input
     t, a, b = base()
     t.output(a)
@@ -306,6 +336,7 @@ def r38_valid(repo, sink):
     _slot_constructors(repo, sink)
     worst_by = {}
     n = 0
+    sole_kinds = set()
     for name, topo, members in _topologies(repo):
         n += 1
         me = topo.composition(members)
@@ -313,6 +344,8 @@ def r38_valid(repo, sink):
             c.fields["logger"] = Logger(label="logger")
         it = SchedInterp(repo)
         want = _expected(topo, members, facts)
+        if len(want) == 1:
+            sole_kinds.update(want)
         try:
             it.run(f, [], self_obj=me)
             got = None
@@ -329,9 +362,10 @@ def r38_valid(repo, sink):
             sink.ok("R38", f"validate:{name}", f, f"{'rejected: ' + ', '.join(sorted(want)) if want else 'accepted'}")
     sink.floor("R38", "validation topologies", n, 60)
     # validation precedes any exchange (order in connect() is R06); here: all four checks are called for every slot
-    txt = U(f.node)
-    for helper in ("_check_input_connected", "_check_dead_links", "_check_branching", "_check_missing_components"):
-        sink.check(helper + "(" in txt, "R38", f"calls:{helper}", f, ok=f"{helper} is applied", bad=f"_validate_composition no longer calls {helper}")
+    # every kind of defect is represented by a topology whose ONLY defect it is: a check that is no longer applied shows up there
+    missing = [k for k in ("unconnected", "static-input-nonstatic-output", "dead-link", "branching", "missing-upstream", "missing-downstream") if k not in sole_kinds]
+    sink.check(not missing, "R38", "defect-kinds-covered", f, ok="each defect kind is the only defect of some generated topology",
+               bad=f"no generated topology has {missing} as its only defect: the table is too narrow")
     _metadata_links(repo, sink)
 
 
